@@ -432,7 +432,7 @@ func (c *Ctx) CheckedCall(fnSpec, callee string, argPats []string, desc, role st
 // OnlyWhenReturn: every return of fn whose result 0 matches valPat happens under condition cond, and at
 // least one such return exists.
 func (c *Ctx) OnlyWhenReturn(fnSpec, valPat, cond, desc string) {
-	role := "onlywhenreturn/" + valPat
+	role := "onlywhenreturn/" + valPat + "/" + cond
 	valPat, cond = c.X(valPat), c.X(cond)
 	f := c.Fn(fnSpec)
 	if f == nil {
@@ -464,4 +464,52 @@ func (c *Ctx) OnlyWhenReturn(fnSpec, valPat, cond, desc string) {
 		return
 	}
 	c.add("P", fnSpec, role, desc, report.OK, fmt.Sprintf("%d return(s)", n), c.fnPos(f))
+}
+
+// ReturnCase: result idx of fn is a control-flow join (phi). On every incoming path on which cond is
+// established the joined value matches pattern (at least one such path exists); if only is set, no other
+// path carries a value matching pattern.
+func (c *Ctx) ReturnCase(fnSpec string, idx int, cond, pattern string, only bool, desc string) {
+	role := fmt.Sprintf("retcase%d/%s", idx, cond)
+	cond, pattern = c.X(cond), c.X(pattern)
+	f := c.Fn(fnSpec)
+	if f == nil {
+		return
+	}
+	n := 0
+	for _, b := range f.Fn.Blocks {
+		ret, ok := b.Instrs[len(b.Instrs)-1].(*ssa.Return)
+		if !ok || idx >= len(ret.Results) {
+			continue
+		}
+		phi, ok := ret.Results[idx].(*ssa.Phi)
+		if !ok {
+			continue
+		}
+		for i, e := range phi.Edges {
+			pred := phi.Block().Preds[i]
+			under := false
+			for _, g := range f.GuardsAt(pred) {
+				if matchCondAny(cond, Normalize(f.Term(g.Cond), g.Polarity)) {
+					under = true
+				}
+			}
+			m := ir.MatchAny(pattern, f.Term(e))
+			if under {
+				n++
+				if !m {
+					c.add("P", fnSpec, role, desc, report.Violated, fmt.Sprintf("under %s the result is %s, want %s", cond, short(f.Term(e).String()), pattern), c.posOf(ret))
+					return
+				}
+			} else if only && m {
+				c.add("P", fnSpec, role, desc, report.Violated, fmt.Sprintf("result %s also on a path where %s is not established", pattern, cond), c.posOf(ret))
+				return
+			}
+		}
+	}
+	if n == 0 {
+		c.add("P", fnSpec, role, desc, report.Violated, "no path establishes "+cond+" before the join of result "+fmt.Sprint(idx), c.fnPos(f))
+		return
+	}
+	c.add("P", fnSpec, role, desc, report.OK, fmt.Sprintf("%d path(s)", n), c.fnPos(f))
 }
